@@ -27,6 +27,7 @@ structure Live (sk : Skeleton) : Prop where
   skipDec  : sk.stubTwoOutSkipsDecodeWhenCancelled = true
   pubChecksClosed : sk.bcPublishChecksClosed = true
   invokeOutside : sk.clInvokeOutsideLock = true   -- CallClosure unlocks closuresLock before it calls the closure
+  panicSites : sk.panicSitesCanonical = true      -- the stub panics only on failures of the link, never on an outcome of the call
 
 theorem run_cons (sk : Skeleton) {s s1 s' : State} {a : Act} {as : List Act}
     (h1 : step sk s a = some s1) (h2 : run sk s1 as = some s') : run sk s (a :: as) = some s' := by
@@ -172,7 +173,7 @@ theorem callTakeRes_enabled (c : Nat) (fail : Bool) (r : Resp) (rest : List Resp
     step sk s (.callTakeRes c fail) = some { s with
       res := upd s.res c rest, calls := upd s.calls c { s.calls c with pc := .decoded, outcome := .ok r } } := by
   obtain ⟨hc, _, _⟩ := alive sk hv hr
-  rcases hdec with h | h <;> simp [step, hc, hp, hres, hv.selRes, h]
+  rcases hdec with h | h <;> simp [step, hc, hp, hres, hv.selRes, hv.panicSites, h]
 
 /-- a call at its select leaves when the link context is done -/
 theorem callLinkCtx_enabled (c : Nat) (hp : (s.calls c).pc = .written) (hl : s.linkCtxDone = true) :
